@@ -309,6 +309,13 @@ def run(ctx):
     from .c13 import rule_no_bom_sniffing
     rule_no_bom_sniffing(ctx, mir, rid="R01.7")
 
+    # ------------------------------------------------------------------ R01.8 (shared clauses)
+    r = ctx.rule("R01.8", "nothing but the configuration decides how bytes are interpreted and whether a non-strict run can fail: the encoding is always ASCII-compatible (constructor discipline, C13 R13.1) and the ambiguity guard runs only under `strict` (C03 R03.3)", "E-MIR", floor=3)
+    from .c13 import clause_ascii_compatible_ctor
+    clause_ascii_compatible_ctor(r, mir)
+    from .c03 import clause_strict_gates_guard
+    clause_strict_gates_guard(r, mir)
+
     ctx.not_decided += ["bytes of captured text surviving decode/encode (stated exception of the property)", "arithmetic of Arena::shift / init_with (memory module unit tests)"]
     return ("Structural conditions of 'lexemes and raw gaps tile every chunk exactly once': construction sites and the five writers of "
             "Lexer.lexeme_start, EOF leaves of all %d automaton states, commit order and flush ordering on every CFG path of the dispatcher / "
